@@ -435,6 +435,9 @@ pub fn c19_pty_case(ctx: &Ctx, env: &RealEnv, dir: &Path, case: u64, seed: u64, 
         }
         let running: Vec<usize> = st.difference(&released).copied().collect();
         // the display must converge to the truth while nothing can change
+        // in flight (ready, queued or running: every unfinished step whose producers are done) is the
+        // second number of `R/M running`; what is neither finished nor in flight is drawn as waiting
+        let in_flight = (0..n).filter(|i| !released.contains(i) && tasks[*i].deps.iter().all(|d| finished_ok.contains(d))).count();
         let truth = (released.len(), n, running.len());
         let t1 = Instant::now();
         let mut last: Option<Frame> = None;
@@ -444,7 +447,7 @@ pub fn c19_pty_case(ctx: &Ctx, env: &RealEnv, dir: &Path, case: u64, seed: u64, 
             let text = strip_ansi(&s.shown);
             last = frames(&text).last().cloned();
             if let Some(f) = &last {
-                if (f.done, f.total, f.running) == truth {
+                if (f.done, f.total, f.running) == truth && f.pending == in_flight {
                     ok = true;
                     break;
                 }
@@ -468,6 +471,8 @@ pub fn c19_pty_case(ctx: &Ctx, env: &RealEnv, dir: &Path, case: u64, seed: u64, 
             (Some(f), false) => {
                 let what = if f.running != truth.2 {
                     "running-count-differs"
+                } else if (f.done, f.total) == (truth.0, truth.1) && f.pending != in_flight {
+                    "in-flight-count-differs"
                 } else if f.total != truth.1 {
                     "total-differs"
                 } else {
@@ -475,7 +480,7 @@ pub fn c19_pty_case(ctx: &Ctx, env: &RealEnv, dir: &Path, case: u64, seed: u64, 
                 };
                 rep.violation(
                     &format!("display:{}", what),
-                    &format!("with {} of {} commands finished and {} executing (state frozen for 15 s) the display says {}/{} done, {} running", truth.0, truth.1, truth.2, f.done, f.total, f.running),
+                    &format!("with {} of {} commands finished, {} executing and {} in flight (state frozen for 15 s) the display says {}/{} done, {}/{} running", truth.0, truth.1, truth.2, in_flight, f.done, f.total, f.running, f.pending),
                     mk(&s, &rounds),
                 );
                 s.kill();
